@@ -235,6 +235,14 @@ fn check_case_single(case: &Value, stats: &mut Stats) -> CheckResult {
     }
 }
 
+fn pair_check(case: &Value, stats: &mut Stats) -> CheckResult {
+    run_pair(case, stats, check_case)
+}
+
+fn pair_driver(ctx: &RunCtx, stats: &mut Stats, rep: &mut Reporter) {
+    half_key_driver("C07", pair_check, ctx, stats, rep)
+}
+
 pub fn property() -> Property {
     Property {
         id: "C07",
@@ -277,6 +285,15 @@ pub fn property() -> Property {
                 required: &["insufficient_material", "moves75", "moves50", "no_outcome"],
                 regressions: &[],
                 exhaustive: true,
+            },
+            SubCheck {
+                name: "half_key_pairs",
+                driver: Driver::Custom { run: pair_driver },
+                check: pair_check,
+                configs: Configs::ReleaseOnly,
+                required: &["equal_low_half_of_the_key", "equal_high_half_of_the_key"],
+                regressions: &[],
+                exhaustive: false,
             },
         ],
     }
